@@ -11,6 +11,8 @@ COMMENT_POOL = ["mV + mV", "2 mV", "mV*", "ms / 0", "C:\\temp\\", "a \\", "x\x0c
                 "states(x=1)", "expressions(\"Z\")", "100 %", "1e400", "-", "**", "[1]", "{", "lambda: 0", "import os", "dx_dt = 0", "TODO: check; see ref. [3]",
                 "0", "nan", "inf", "e", "pi", "1 2 3", "unit=\"mV\"", "\\", "\\n", "tab\there", "   padded   ", "#", "##", "?", "a,b", "None", "True"]
 
+EXOTIC_BREAKS = ["\x0b", "\x0c", "\x1c", "\x1d", "\x1e", "\x85", "\u2028", "\u2029"]
+
 
 def membership(ode):
     out = {}
@@ -206,6 +208,22 @@ def c17_run(ctx: Ctx):
             t_ = annot_edit(m, d_, u_, ctx.rng)
             if t_ is not None:
                 eds.append((f"annotation unit={u_!r} description={d_!r}", "annotation", t_))
+        # characters that str.splitlines() treats as line ends but the grammar does not (a comment runs through them, a form
+        # feed is ordinary white space): each gets its turn inside a trailing comment, and the form feed between operands
+        import re as _re
+        lines_ = base.split("\n")
+        cand_ = [i for i, ln in enumerate(lines_) if _re.match(r"^\w+ = ", ln) and "#" not in ln and ln.count("(") == ln.count(")")]
+        if cand_:
+            ch_ = EXOTIC_BREAKS[k % len(EXOTIC_BREAKS)]
+            tail_ = ["states(zq=0)", "see the note", "= 3", "zq = 1"][(k // len(EXOTIC_BREAKS)) % 4]
+            i_ = cand_[k % len(cand_)]
+            l2 = list(lines_)
+            l2[i_] = l2[i_] + f" # previously:{ch_}{tail_}"
+            eds.append((f"trailing comment containing {ch_!r}", "comment-trailing", "\n".join(l2)))
+            if " + " in lines_[i_] or " - " in lines_[i_]:
+                l3 = list(lines_)
+                l3[i_] = l3[i_].replace(" + ", " +\x0c ", 1).replace(" - ", " -\x0c ", 1)
+                eds.append(("a form feed between operator and operand", "whitespace", "\n".join(l3)))
         for desc, cls, t in eds:
             c17_case(ctx, {"text": base, "edited": t, "cls": cls, "desc": desc})
         if ctx.elapsed() > (1500 if ctx.thorough else 150):
